@@ -22,13 +22,31 @@ fn strip_lines(msgs: &[String]) -> Vec<String> {
 }
 
 fn base(rng: &mut Rng, which: u64) -> (Vec<Node>, &'static str) {
-    match which % 5 {
+    let (mut nodes, kind) = match which % 5 {
         0 => (c02::gen_program(rng, 40).nodes, "layout"),
         1 => (c06gen(rng), "data"),
         2 => (c08gen(rng), "conditional"),
         3 => (c09::gen(rng).nodes, "macro"),
         _ => (c10::gen(rng).nodes, "symbol"),
+    };
+    // every third program ends in reservations whose size is a function call or a sum: what such a line
+    // reserves is not this property's business, but it is the same however the line is spelled
+    if rng.chance(1, 3) {
+        use crate::gen::ir::{DataOp, Seg};
+        use crate::refmodel::expr::{Bin, E};
+        let f = |rng: &mut Rng| *rng.pick(&["low", "high", "byte2", "lwrd", "exp2"]);
+        let (f1, f2) = (f(rng), f(rng));
+        nodes.push(Node::Seg(Seg::Data));
+        nodes.push(Node::Reserve { label: Some("c14_sized_by_function".into()), n: E::Func(f1, Box::new(E::Lit(if f1 == "exp2" { 3 } else { 0x0203 }, 1))) });
+        nodes.push(Node::Reserve { label: Some("c14_sized_by_sum".into()), n: E::bin(Bin::Add, E::Lit(1, 0), E::Lit(2, 1)) });
+        nodes.push(Node::Reserve { label: Some("c14_after_them".into()), n: E::Lit(1, 0) });
+        nodes.push(Node::Seg(Seg::Eeprom));
+        nodes.push(Node::Reserve { label: None, n: E::Func(f2, Box::new(E::Lit(if f2 == "exp2" { 2 } else { 0x0302 }, 1))) });
+        nodes.push(Node::Data { label: Some("c14_ee_after".into()), width: 1, ops: vec![DataOp::E(E::Lit(7, 0))] });
+        nodes.push(Node::Seg(Seg::Code));
+        nodes.push(Node::Data { label: None, width: 2, ops: vec![DataOp::E(E::Sym("c14_sized_by_function".into())), DataOp::E(E::Sym("c14_sized_by_sum".into())), DataOp::E(E::Sym("c14_after_them".into())), DataOp::E(E::Sym("C14_EE_AFTER".into()))] });
     }
+    (nodes, kind)
 }
 
 #[derive(Clone, Copy)]
